@@ -131,7 +131,8 @@ def byte_values(orig, tier):
     return vals
 
 
-U_VALUES = list(range(0, 21)) + [255, 256, 65535, 65536, (1 << 32) - 1, 1 << 32]
+HUGE = 1 << 20000  # an exp-Golomb value of > 6000 decimal digits in a ~5 kB stream
+U_VALUES = list(range(0, 21)) + [255, 256, 65535, 65536, (1 << 32) - 1, 1 << 32, "HUGE"]  # "HUGE" is resolved when the bytes are built
 S_VALUES = [0, 1, -1, 2, -2, 255, -255, 1 << 31, -(1 << 31)]
 
 
@@ -139,7 +140,7 @@ def token_values(tok, reduced=False):
     kind = tok[0]
     if kind == "u":
         cur = tok[1]
-        vals = [0, 1, 2, cur + 1, 1 << 16] if reduced else U_VALUES + [cur + 1]
+        vals = [0, 1, 2, cur + 1, 1 << 16] if reduced else U_VALUES[:-1] + [cur + 1] + U_VALUES[-1:]
     elif kind == "s":
         cur = tok[1]
         vals = [0, 1, -1] if reduced else S_VALUES
@@ -163,10 +164,12 @@ def token_values(tok, reduced=False):
     for v in vals:
         if v != cur and v not in out:
             out.append(v)
-    return out
+    return out  # (may contain the symbolic value "HUGE")
 
 
 def with_token_value(tok, v):
+    if v == "HUGE":
+        v = HUGE
     if tok[0] in ("n", "lit"):
         return (tok[0], tok[1], v) + tuple(tok[3:])
     return (tok[0], v) + tuple(tok[2:])
